@@ -44,6 +44,10 @@ pub fn classify_alg(a: &rcgen::SignatureAlgorithm) -> Option<(KeyAlg, Option<FDi
 
 /// Soundness of one acceptance: the signature must verify over the request's
 /// certificationRequestInfo bytes under the public key rcgen reports (raw bytes + algorithm).
+pub fn check_accepted_pub(bytes: &[u8], p: &rcgen::CertificateSigningRequestParams) -> Result<(), String> {
+	check_accepted(bytes, p)
+}
+
 fn check_accepted(bytes: &[u8], p: &rcgen::CertificateSigningRequestParams) -> Result<(), String> {
 	use rcgen::PublicKeyData;
 	// Locate the signed bytes, the embedded key bits and the signature. The strict decoder is
@@ -197,6 +201,10 @@ pub struct ForeignCsr {
 	pub challenge_password: Option<String>,
 	/// an attribute value of a string type rcgen's DN model does not have
 	pub odd_string_subject: bool,
+	/// 0 = the key's canonical SubjectPublicKeyInfo; 1 = NULL parameters toggled (omitted for RSA,
+	/// added for EC / Ed25519 ... where they do not belong); 2 = long-form length in the SPKI header
+	#[serde(default)]
+	pub spki_variant: u8,
 }
 
 #[derive(Clone, Debug, Serialize, Deserialize, PartialEq, Eq, Hash)]
@@ -254,8 +262,9 @@ fn foreign_csr() -> BoxedStrategy<ForeignCsr> {
 		],
 		prop::option::weighted(0.3, "[a-zA-Z0-9]{1,10}"),
 		prop::bool::weighted(0.05),
+		prop_oneof![8 => Just(0u8), 1 => Just(1u8), 1 => Just(2u8)],
 	)
-		.prop_map(|(key, digest, subject, spec, unsupported, challenge_password, odd_string_subject)| ForeignCsr {
+		.prop_map(|(key, digest, subject, spec, unsupported, challenge_password, odd_string_subject, spki_variant)| ForeignCsr {
 			key,
 			digest,
 			subject,
@@ -263,8 +272,48 @@ fn foreign_csr() -> BoxedStrategy<ForeignCsr> {
 			unsupported,
 			challenge_password,
 			odd_string_subject,
+			spki_variant,
 		})
 		.boxed()
+}
+
+/// The key's SubjectPublicKeyInfo in a valid-BER but non-canonical / unusual encoding.
+pub fn variant_spki(k: &KeySpec, variant: u8) -> Vec<u8> {
+	let fx = keys::fixture(k);
+	match variant {
+		1 => {
+			let alg = keys::rfc_spki_alg_id(k.alg);
+			// toggle the NULL parameters
+			let l = Lints::new();
+			let t = der::read_single(&alg, &l, "alg").unwrap();
+			let parts = der::children(t.content, &l).unwrap();
+			let new_alg = if k.is_rsa() {
+				der::enc_seq(&[parts[0].raw.to_vec()])
+			} else if parts.len() == 1 {
+				der::enc_seq(&[parts[0].raw.to_vec(), vec![0x05, 0x00]])
+			} else {
+				return fx.spki.clone();
+			};
+			der::enc_seq(&[new_alg, forge::enc_bits(&fx.raw_public, 0)])
+		},
+		2 => {
+			// long-form length octets although the short form would do / one extra length octet
+			let l = Lints::new();
+			let t = der::read_single(&fx.spki, &l, "spki").unwrap();
+			let n = t.content.len();
+			let mut v = vec![0x30];
+			if n < 0x80 {
+				v.extend_from_slice(&[0x81, n as u8]);
+			} else if n < 0x100 {
+				v.extend_from_slice(&[0x82, 0x00, n as u8]);
+			} else {
+				v.extend_from_slice(&[0x83, 0x00, (n >> 8) as u8, n as u8]);
+			}
+			v.extend_from_slice(t.content);
+			v
+		},
+		_ => fx.spki.clone(),
+	}
 }
 
 pub fn forge_foreign(f: &ForeignCsr) -> Result<Vec<u8>, String> {
@@ -303,6 +352,7 @@ pub fn forge_foreign(f: &ForeignCsr) -> Result<Vec<u8>, String> {
 		subject_der_override = Some(der::enc_seq(&[der::enc_tlv(0x31, &atv)]));
 	}
 	let fx = keys::fixture(&f.key);
+	let spki = variant_spki(&f.key, f.spki_variant);
 	if let Some(sd) = subject_der_override {
 		// assemble by hand because FName only knows rcgen's six kinds
 		let mut attrs: Vec<Vec<u8>> = Vec::new();
@@ -311,18 +361,24 @@ pub fn forge_foreign(f: &ForeignCsr) -> Result<Vec<u8>, String> {
 		}
 		let mut set = der::enc_set_of(&attrs);
 		set[0] = 0xa0;
-		let cri = der::enc_seq(&[der::enc_uint(0), sd, fx.spki.clone(), set]);
+		let cri = der::enc_seq(&[der::enc_uint(0), sd, spki.clone(), set]);
 		let digest = if f.key.alg == KeyAlg::Ed25519 { None } else { Some(f.digest.md()) };
 		let sig = keys::openssl_sign(&fx.pkey, digest, &cri)?;
 		return Ok(der::enc_seq(&[cri, forge::sig_alg_der(f.key.alg, f.digest), forge::enc_bits(&sig, 0)]));
 	}
-	forge::forge_csr(&forge::ForgeCsr { subject: &f.subject, spki: &fx.spki, extensions: exts, attributes }, &f.key, f.digest)
+	forge::forge_csr(&forge::ForgeCsr { subject: &f.subject, spki: &spki, extensions: exts, attributes }, &f.key, f.digest)
 }
 
 pub fn check_foreign(f: &ForeignCsr, info: &mut CaseInfo) -> Result<(), String> {
 	let bytes = forge_foreign(f)?;
-	if !forge::openssl_accepts_csr(&bytes) {
-		return Err("INTERNAL: OpenSSL does not accept the forged request".into());
+	if f.spki_variant == 0 {
+		if !forge::openssl_accepts_csr(&bytes) {
+			return Err("INTERNAL: OpenSSL does not accept the forged request".into());
+		}
+	} else {
+		// unusual SubjectPublicKeyInfo encodings: whether OpenSSL reads them is beside the point; if
+		// rcgen accepts such a request the binding clause (byte-identical SPKI) still applies
+		info.class(format!("spki-variant:{}:{}", f.spki_variant, if forge::openssl_accepts_csr(&bytes) { "openssl-accepts" } else { "openssl-refuses" }));
 	}
 	let natural = match f.key.alg {
 		KeyAlg::P256 => FDigest::Sha256,
